@@ -19,6 +19,9 @@ pub enum CEv {
     Up { draw: u32 },
     /// join attempt (no accept) with channel draw
     JoinTry { draw: u32 },
+    /// a long run of unanswered join attempts (the walk over the join channels has state that only
+    /// shows after many attempts)
+    JoinRun { attempts: u32 },
     /// join attempt answered by a JoinAccept: 0 plain, 1 CFList, 2 minimal CFList, 3 CFList with out-of-band frequencies
     JoinOk { kind: u8 },
     Cmd { label: String, bytes: Vec<u8> },
@@ -135,6 +138,9 @@ impl<const PW: u8, const GAIN: i8> System for Sys<PW, GAIN> {
             for k in 0..4 {
                 v.push(CEv::JoinOk { kind: k });
             }
+            if fixed {
+                v.push(CEv::JoinRun { attempts: 80 });
+            }
             return v;
         }
         for d in 0..ndraw {
@@ -160,6 +166,14 @@ impl<const PW: u8, const GAIN: i8> System for Sys<PW, GAIN> {
         let evs: Vec<Ev> = match ev {
             CEv::Up { draw } => vec![Ev::Rng(vec![*draw]), Ev::Cycle { confirmed: false, port: 1, len: 1, rx1: None, rx2: None }],
             CEv::JoinTry { draw } => vec![Ev::Rng(vec![0x4242, *draw]), Ev::JoinCycle { rx1: None, rx2: None }],
+            CEv::JoinRun { attempts } => {
+                let mut v = vec![];
+                for i in 0..*attempts {
+                    v.push(Ev::Rng(vec![0x4242 + i, i.wrapping_mul(7)]));
+                    v.push(Ev::JoinCycle { rx1: None, rx2: None });
+                }
+                v
+            }
             CEv::JoinOk { kind } => {
                 let f = match kind {
                     0 => good_join_accept(&region, false),
@@ -190,6 +204,9 @@ impl<const PW: u8, const GAIN: i8> System for Sys<PW, GAIN> {
             }],
             CEv::SetDr(d) => vec![Ev::SetDr(*d)],
         };
+        // a LinkADRReq whose TXPower field is 15 ("keep") must leave the commanded level alone
+        let keeps_power = matches!(ev, CEv::Cmd { bytes, .. } if bytes.len() >= 5 && bytes.len() % 5 == 0 && bytes.chunks(5).all(|c| c[0] == 0x03 && c[1] & 0x0F == 0x0F));
+        let power_before = self.core.snap().tx_power;
         for e in evs {
             for m in self.core.apply(&e) {
                 if let Resp::Panic(p) = &m.resp {
@@ -207,6 +224,15 @@ impl<const PW: u8, const GAIN: i8> System for Sys<PW, GAIN> {
                     }
                 }
                 self.outcome = short_resp(&m.resp);
+            }
+        }
+        if keeps_power && self.core.dead.is_none() {
+            let power_after = self.core.snap().tx_power;
+            if power_after != power_before {
+                out.push(V {
+                    sig: "C09|power|commanded-level-lost".into(),
+                    what: format!("{region}: a LinkADRReq with TXPower 15 (keep) changed the commanded level from {power_before:?} to {power_after:?}: later uplinks are no longer bounded by what the network last commanded"),
+                });
             }
         }
         out
@@ -282,7 +308,7 @@ pub fn run(tier: Tier, replay: Option<&str>) {
     let th = tier.thorough();
     let regions: Vec<&str> = if th { REGIONS.to_vec() } else { vec!["EU868", "US915", "AU915", "AS923_1"] };
     let boards: Vec<(u8, i8)> = if th { vec![(10, -3), (14, 0), (22, 2), (30, 6)] } else { vec![(14, 0), (10, -3)] };
-    let depth = if th { 4 } else { 3 };
+    let depth = if crate::ctx::deep() { 6 } else if th { 4 } else { 3 };
     let mut runs = vec![];
     for r in &regions {
         for b in &boards {
